@@ -86,6 +86,10 @@ def check_graph(nodes, root_obj, evaluate, root_is_label=False):
     full = [n for n in nodes if not n.cyclic]
     for idx, n in enumerate(nodes):
         if type(n.type) is typing.ForwardRef and not n.cyclic:
+            if n.var is not None and n.type.__forward_is_argument__ and n.type.__forward_module__:
+                # the text of a constructor annotation under postponed evaluation (a class whose member types are
+                # written on __init__ only): handed on as a reference to it, never evaluated, never flagged
+                return ("signature-hint-left-as-reference", repr(n)[:160])
             return ("forwardref-not-flagged", repr(n)[:160])
         if n.cyclic:
             try:
